@@ -293,7 +293,31 @@ func genC06() *rapid.Generator[*Spec] {
 		if key == m.K(s.Injectors[k].Out) {
 			pos = "root"
 		}
-		mut := x.pick([]string{"remove", "remove", "remove", "nearmiss", "nearmiss", "alias", "remove-one", "remove-one", "twin-type", "twin-type"}, "mut")
+		mut := x.pick([]string{"remove", "remove", "remove", "nearmiss", "nearmiss", "alias", "remove-one", "remove-one", "twin-type", "twin-type", "starfield", "starfield", "starfield", "starfield"}, "mut")
+		if mut == "starfield" {
+			// a struct built by wire.Struct(new(S), "*") gains a field whose type
+			// nothing provides: exported or not, in the injector's package or not,
+			// the gap must be reported, never left at its zero value
+			var stars []int
+			for _, k2 := range v.Needed {
+				if s2 := v.Set.Map[k2].Src; s2.Kind == "struct" && s.Items[s2.Item].Star {
+					stars = append(stars, s2.Item)
+				}
+			}
+			if len(stars) == 0 {
+				mut = "remove"
+			} else {
+				si := stars[x.intn(0, len(stars)-1, "star")]
+				d := m.StructDecl(s.Items[si].Out)
+				ft := Named(addFreshStruct(s, d.Pkg, x.fresh("Gap")))
+				d = m.StructDecl(s.Items[si].Out)
+				name := x.pick([]string{"ZzGap", "zzgap", "zzgap"}, "gapfield")
+				d.Fields = append(d.Fields, SField{Name: name, T: ft, Tag: x.pick([]string{"", "", `json:"-"`, `xwire:"-"`}, "gaptag")})
+				s.Note = fmt.Sprintf("C06 starfield %s pkg=%d pos=%s", name, d.Pkg, pos)
+				refreshPlan(s)
+				return s
+			}
+		}
 		if mut == "twin-type" {
 			// prefer a needed generic instantiation, if the program has one
 			for _, k2 := range v.Needed {
